@@ -20,6 +20,8 @@ DRIVERS = {
     'operators_total': {'vm': 'operators_total'},
     'operators_select': {'vm': 'operators_total'},
     'operators_format': {'vm': 'operators_total'},
+    'operators_sort': {'vm': 'operators_total'},
+    'd_array_check': {'vm': 'operators_total'},
     'runtime_core': {'vm': 'runtime_core'},
     'runtime_execute': {'vm': 'runtime_step'},
     'runtime_sched': {'vm': 'waituntil'},
